@@ -47,6 +47,7 @@ type FuncContract struct {
 	AbstractCallees []string // calls havocked while verifying this function
 	ModAny   bool // "modifies *": no frame is claimed
 	Resets   []*ResetClause
+	IndexAsserts []*CallSite // "index <slice expr>: assert P(idx)"
 }
 
 // ResetClause: "resets <ptr expr> zero: f1, f2 scratch: g1, g2" classifies
@@ -651,6 +652,23 @@ func (w *World) parseContractFile(pkgPath, file string) error {
 			default:
 				return fail(l.n, "unknown loop clause %q", w2)
 			}
+		case "index":
+			if cur == nil {
+				return fail(l.n, "index clause outside func")
+			}
+			ix := strings.Index(rest, ":")
+			if ix < 0 {
+				return fail(l.n, "expected 'index <expr>: assert ...'")
+			}
+			w3, r3 := splitWord(strings.TrimSpace(rest[ix+1:]))
+			if w3 != "assert" {
+				return fail(l.n, "expected assert")
+			}
+			icl, err := mkClause(r3, l.n)
+			if err != nil {
+				return err
+			}
+			cur.IndexAsserts = append(cur.IndexAsserts, &CallSite{Callee: normText(rest[:ix]), Occ: -1, C: icl})
 		case "callsite":
 			if cur == nil {
 				return fail(l.n, "callsite outside func")
@@ -1579,6 +1597,13 @@ func (e *Env) evalCall(x *Expr) *Val {
 			return intVal(a.Typ, Ite(lt, a.T(), b.T()))
 		}
 		return intVal(a.Typ, Ite(lt, b.T(), a.T()))
+	case "dynptr":
+		// the pointer stored in an interface value (0 for a nil pointer)
+		v := e.eval(x.Args[0])
+		if _, ok := v.Typ.Underlying().(*types.Interface); !ok {
+			specErr("dynptr of non-interface")
+		}
+		return intVal(types.Typ[types.Uint32], v.leaves()[1])
 	case "base":
 		// identity of the backing array of a slice
 		v := e.eval(x.Args[0])
